@@ -106,6 +106,41 @@ theorem fed_zero_shed (p : LP) (x y z : List ℚ) (gap tol : ℚ) (hcert : check
   have := C03.cert_vs_witness p x y z gap tol hcert hz
   linarith
 
+/-- dropping amounts up to α loses at most α per bus -/
+theorem threshold_sum (alpha : ℚ) (ha : 0 ≤ alpha) (sh : List ℚ) (h0 : ∀ s ∈ sh, 0 ≤ s) :
+    sumL sh - (sh.length : ℚ) * alpha ≤ sumL (sh.map (fun s => if s > alpha then s else 0)) ∧
+    sumL (sh.map (fun s => if s > alpha then s else 0)) ≤ sumL sh := by
+  induction sh with
+  | nil => simp [sumL]
+  | cons s t ih =>
+    obtain ⟨i1, i2⟩ := ih (fun x hx => h0 x (List.mem_cons_of_mem _ hx))
+    have hs := h0 s List.mem_cons_self
+    have e1 : sumL (s :: t) = s + sumL t := by simp [sumL]
+    have e2 : sumL ((s :: t).map (fun s => if s > alpha then s else 0)) =
+        (if s > alpha then s else 0) + sumL (t.map (fun s => if s > alpha then s else 0)) := by simp [sumL]
+    rw [e1, e2]
+    simp only [List.length_cons, Nat.cast_add, Nat.cast_one]
+    split_ifs with h
+    · constructor <;> linarith
+    · have := not_lt.mp h
+      constructor <;> linarith
+
+/-- **What is recorded as shed** (the solution with amounts up to α dropped, `C03.reported_eq_threshold`) **still covers
+the island's deficit**: the recorded total is at least demand minus the supply available in the island, up to the
+documented slack (α per bus for the balance variable, α per bus for the threshold) — and never more than the solution
+sheds.  In an island without sources the recorded shed is the whole demand up to that slack. -/
+theorem recorded_ge_demand_minus_supply (p : LP) (nd nl : ℕ) (sh fl ge genMax : List ℚ) (a alpha : ℚ)
+    (hpat : colSums p = List.replicate nd 1 ++ zeros nl ++ List.replicate nd 1 ++ [(nd : ℚ)])
+    (hsh : sh.length = nd) (hfl : fl.length = nl) (hge : ge.length = nd)
+    (hx : Feasible p (sh ++ fl ++ ge ++ [a]))
+    (hgen : InBox ge (zeros ge.length) genMax) (ha : a ≤ alpha) (h0 : ∀ s ∈ sh, 0 ≤ s) (hal : 0 ≤ alpha) :
+    sumL p.b - sumL genMax - 2 * (nd : ℚ) * alpha ≤ sumL (sh.map (fun s => if s > alpha then s else 0)) ∧
+    sumL (sh.map (fun s => if s > alpha then s else 0)) ≤ sumL sh := by
+  have h1 := shed_ge_demand_minus_supply p nd nl sh fl ge genMax a alpha hpat hsh hfl hge hx hgen ha
+  obtain ⟨t1, t2⟩ := threshold_sum alpha hal sh h0
+  rw [hsh] at t1
+  exact ⟨by linarith, t2⟩
+
 /-- Non-vacuity of the pattern hypothesis: the island LP of a fed two-bus feeder has it. -/
 example : colSums (build { buses := [⟨0, 5, 100000000⟩, ⟨2/5, 3, 0⟩], lines := [⟨0, 1, 1/4⟩], alpha := 0 }) =
     List.replicate 2 1 ++ zeros 1 ++ List.replicate 2 1 ++ [((2 : ℕ) : ℚ)] := by decide +kernel
